@@ -39,6 +39,11 @@
 //! close / after it / after the failure was queued / after the partial handling (optionally crashing twice).  Op line
 //!   evlife (close | timeout | h<k> | persist | crash)* -> part=0/1 queue=<P|F[*],..> resolved=0/1 handledT=0/1      (Restart.erun, single payment)
 //! Oracle: a PaymentFailed the handler never accepted before the crash is delivered after the restart.  VERIF_C10_EVT="n_pay:closer_t:k:mgr_pt:second".
+//! Interception worlds (`run_icpt_world`): node 1 of a line 0-1-2 intercepts forwards (htlc_interception_flags) and holds 1-4 HTLCs; its handler accepts a
+//! prefix of the HTLCIntercepted events; the application forwards / fails some; manager written; crash + restart (production path), optionally repeated.  Op line
+//!   icpt (i<id>:<hash>:<in|->:<out>:<cltv>:<scid> | h<k> | r<id> | p | c)* -> held=<ids> queue=<id/scid/hash/in/out/expiry,..> told=<ids>      (Restart.irun)
+//! Oracles: after every restart each held HTLC has a pending HTLCIntercepted equal to the first one; the events delivered after the last restart name every held
+//! HTLC; what the application is told about can be forwarded and every payment reaches its terminal event at the payer.  VERIF_C10_ICPT="<key>|all".
 //! Repaired KF-C10-6 (HARD oracles): in the world loop the read must never fail back an HTLC that the monitor copy of a channel closed as
 //! OutdatedChannelManager still lists as pending; `kf6_probe` runs the scenario end to end (forwarded HTLC / own payment in the stale manager's
 //! holding cell, committed afterwards): nothing is failed at the restart, and after the downstream peer's on-chain claim the node learns the
@@ -910,6 +915,10 @@ fn main() {
 		let (n_evt, evt_errs, pat) = if probes_only { (0, 0, 0) } else { evt_family(&mut rec, args) };
 		rec.notes.insert("event_redelivery_worlds".into(), format!("{} worlds (1-2 payments over a channel closed on chain by either commitment, HTLC timeouts buried; the event handler accepts a prefix of 0..all pending events and replays the rest; restart from the manager written before the close / after it / after the failure was queued / after the partial handling, optionally crashing twice); {} could not be set up; in {} payments the restarted (older) manager keeps the payment pending although PaymentFailed had been handled before the crash (observation, not judged: the terminal event was delivered)", n_evt, evt_errs, pat));
 	}
+	{
+		let (n_ic, ic_errs, ic_held) = if probes_only && std::env::var("VERIF_C10_ICPT").is_err() { (0, 0, 0) } else { icpt_family(&mut rec, args) };
+		rec.notes.insert("interception_worlds".into(), format!("{} worlds (a forwarding node holding 1-4 intercepted HTLCs; its handler accepts a prefix of the HTLCIntercepted events and replays the rest, the application forwards / fails some, the manager is written, crash, restart on the production reload path, optionally repeated); {} could not be set up; {} held HTLCs checked for a pending HTLCIntercepted event right after a restart; every world ends with the application forwarding what it was told about and every payment reaching its terminal event at the payer", n_ic, ic_errs, ic_held));
+	}
 	// end-to-end probes of the repaired stale-manager holding-cell fail-back (HARD oracles): forwarded HTLC and own payment
 	for (own, by_timeout, name) in [(false, false, "kf6_probe"), (true, false, "kf6_probe_own_payment"), (false, true, "kf6_probe_timeout"), (true, true, "kf6_probe_own_payment_timeout")] {
 		let what = format!("{}, {}", if own { "own payment of the restarted node" } else { "forwarded HTLC" }, if by_timeout { "never claimed: resolved by the on-chain timeout" } else { "claimed on chain by the recipient" });
@@ -1225,6 +1234,284 @@ fn evt_family(rec: &mut Rec, args: &Args) -> (u64, u64, u64) {
 		}
 	}
 	(n, errs, pat)
+}
+
+// =====================================================================================================================
+// Re-delivery of Event::HTLCIntercepted for the HTLCs held in pending_intercepted_htlcs (from_channel_manager_data's regeneration loop)
+// =====================================================================================================================
+/// One interception world.  Line 0 -c0- 1 -c1- 2 (legacy channels), node under test t = 1 intercepts forwards to its intercept SCIDs
+/// (`htlc_interception_flags = ToInterceptSCIDs`).  Ops: `I` node 0 pays node 2 over an intercept SCID of t, everything is delivered, t decodes
+/// and holds the HTLC (entry in pending_intercepted_htlcs + Event::HTLCIntercepted); `H k` t's event handler accepts the first k HTLCIntercepted
+/// events and returns Err(ReplayEvent) for the next; `R j fwd` the application forwards / fails the j-th HTLC it was told about;
+/// `P` the ChannelManager is written; `C` crash, restart from the last written manager and the current monitors (production reload path),
+/// peers reconnect.  Only `H` ops stand between a `P` and the following `C` (the written manager is never older than the monitors: no channel is
+/// closed), and after the first crash handlers accept nothing or everything (the order of regenerated events follows a HashMap).
+/// Compared with Restart.irun after every crash and at the end (`icpt` op).  Oracles (independent of the Lean model): after every restart each
+/// HTLC in pending_intercepted_htlcs has a pending HTLCIntercepted event, equal to the one first delivered; at the end the events DELIVERED after
+/// the last restart name every held HTLC; the application then forwards what it was told about, the recipient claims, and every payment reaches
+/// PaymentSent (forwarded) / PaymentFailed (failed by the application) at the payer.  VERIF_C10_ICPT="<world key>" replays one world ("all" with VERIF_C10_PROBES_ONLY=1: this family only).
+#[derive(Clone, Copy, Debug, PartialEq)]
+enum IcOp { I, H(usize), R(usize, bool), P, C }
+
+fn icpt_key(ops: &[IcOp]) -> String {
+	ops.iter().map(|o| match o { IcOp::I => "I".to_string(), IcOp::H(k) => format!("H{}", k), IcOp::R(j, f) => format!("R{}{}", j, if *f { "f" } else { "x" }), IcOp::P => "P".into(), IcOp::C => "C".into() }).collect::<Vec<_>>().join(".")
+}
+
+fn dbg_field<'a>(l: &'a str, name: &str) -> Option<&'a str> {
+	let i = l.find(&format!("{}: ", name))? + name.len() + 2;
+	let rest = &l[i..];
+	let end = rest.find(|c: char| c == ',' || c == ' ' || c == '}').unwrap_or(rest.len());
+	Some(&rest[..end])
+}
+fn kv_field<'a>(l: &'a str, name: &str) -> Option<&'a str> { l.split(' ').find_map(|t| t.strip_prefix(&format!("{}=", name))) }
+fn hex48(s: &str) -> u64 { u64::from_str_radix(&s[..12.min(s.len())], 16).unwrap_or(u64::MAX) }
+fn opt_num(s: &str) -> String { s.strip_prefix("Some(").and_then(|x| x.strip_suffix(")")).map(|x| x.to_string()).unwrap_or_else(|| "-".into()) }
+
+/// (full intercept id hex, `id/scid/hash/in/out/expiry`) of every HTLCIntercepted in t's pending_events, in queue order
+fn icpt_events(net: &Net, t: usize) -> Vec<(String, String)> {
+	vh::manager_persisted_state_dump(net.nodes[t].node).iter().filter(|l| l.starts_with("event #") && l.contains(" HTLCIntercepted {")).filter_map(|l| {
+		let id = dbg_field(l, "intercept_id")?;
+		Some((id.to_string(), format!("{}/{}/{}/{}/{}/{}", hex48(id), dbg_field(l, "requested_next_hop_scid")?, hex48(dbg_field(l, "payment_hash")?), dbg_field(l, "inbound_amount_msat")?,
+			dbg_field(l, "expected_outbound_amount_msat")?, opt_num(dbg_field(l, "outgoing_htlc_expiry_block_height")?))))
+	}).collect()
+}
+/// (full intercept id hex, hash48, incoming amount | -, outgoing amount, outgoing cltv) of every entry of t's pending_intercepted_htlcs
+fn icpt_held(net: &Net, t: usize) -> Vec<(String, u64, String, String, String)> {
+	vh::manager_persisted_state_dump(net.nodes[t].node).iter().filter(|l| l.starts_with("intercepted ")).filter_map(|l| {
+		let id = l.split(' ').nth(1)?;
+		Some((id.to_string(), hex48(kv_field(l, "hash")?), opt_num(kv_field(l, "incoming_amt")?), kv_field(l, "outgoing_amt")?.to_string(), kv_field(l, "outgoing_cltv")?.to_string()))
+	}).collect()
+}
+
+fn icpt_settle(net: &mut Net, t: usize) {
+	for _ in 0..16 {
+		let mut moved = false;
+		while let Some((i, j)) = net.any_queued() { net.deliver(i, j); moved = true; }
+		for i in 0..net.nodes.len() {
+			if net.nodes[i].node.needs_pending_htlc_processing() { net.forward(i); moved = true; }
+			if i != t { let before = net.trace.len(); net.process_events(i); if net.trace.len() != before { moved = true; } }
+		}
+		if !moved { break; }
+	}
+}
+
+fn run_icpt_world(ops: &[IcOp], rec: &mut Rec, seed: u64, regen_total: &mut u64) -> Result<(), String> {
+	use lightning::events::{EventsProvider, ReplayEvent};
+	use lightning::ln::channelmanager::{InterceptId, PaymentId};
+	use lightning::ln::functional_test_utils::{get_payment_preimage_hash, test_legacy_channel_config};
+	use lightning::ln::outbound_payment::RecipientOnionFields;
+	use lightning::routing::router::{Path, PaymentParameters, Route, RouteHop, RouteParameters};
+	use lightning::types::features::{ChannelFeatures, NodeFeatures};
+	use lightning::util::config::HTLCInterceptionFlags;
+	use std::cell::{Cell, RefCell};
+	let key = icpt_key(ops);
+	let tag = format!("interception world [VERIF_C10_ICPT={}] (seed {})", key, seed);
+	vh::RELOAD_RECONSTRUCT_FROM_MONITORS.store(false, std::sync::atomic::Ordering::Relaxed);
+	let mut rng = Rng::new(seed);
+	let cfg = test_legacy_channel_config();
+	let mut cfg_t = cfg.clone();
+	cfg_t.htlc_interception_flags = HTLCInterceptionFlags::ToInterceptSCIDs as u8;
+	let mut net = Net::new(3, vec![Some(cfg.clone()), Some(cfg_t), Some(cfg)]);
+	net.open(0, 1, 1_000_000, 300_000_000);
+	net.open(1, 2, 1_000_000, 300_000_000);
+	let t = 1usize;
+	let out_chan = net.chans[1].2;
+	let mut toks: Vec<String> = vec![];                       // the model's op tokens
+	let mut order: Vec<String> = vec![];                      // intercept ids (full hex) in interception order
+	let mut first_ev: BTreeMap<String, String> = BTreeMap::new();   // id -> the event as first queued
+	let mut pay_of: BTreeMap<String, usize> = BTreeMap::new();      // id -> payment index
+	let mut failed_by_app: BTreeSet<usize> = BTreeSet::new();
+	let mut told: Vec<String> = vec![];                       // ids the handler accepted since the last restart
+	let mut disk: Option<Vec<u8>> = None;
+	let mut crashed = false;
+	let show = |net: &Net, told: &Vec<String>| -> String {
+		let h: Vec<String> = icpt_held(net, t).iter().map(|x| hex48(&x.0).to_string()).collect();
+		let q: Vec<String> = icpt_events(net, t).into_iter().map(|x| x.1).collect();
+		format!("held={} queue={} told={}", join_sorted(h), join_sorted(q), join_sorted(told.iter().map(|x| hex48(x).to_string()).collect()))
+	};
+	for (n_op, op) in ops.iter().enumerate() {
+		match *op {
+			IcOp::I => {
+				let amt = 3_000_000 + rng.below(20_000_000);
+				let scid = net.nodes[t].node.get_intercept_scid();
+				let fee0 = 1000 + rng.below(3000);
+				let (preimage, hash, secret) = get_payment_preimage_hash(&net.nodes[2], Some(amt), None);
+				let hops = vec![
+					RouteHop { pubkey: net.ids[1], node_features: NodeFeatures::empty(), short_channel_id: net.chans[0].3, channel_features: ChannelFeatures::empty(), fee_msat: fee0, cltv_expiry_delta: 48, maybe_announced_channel: true },
+					RouteHop { pubkey: net.ids[2], node_features: NodeFeatures::empty(), short_channel_id: scid, channel_features: ChannelFeatures::empty(), fee_msat: amt, cltv_expiry_delta: 70, maybe_announced_channel: true }];
+				let params = PaymentParameters::from_node_id(net.ids[2], 70);
+				let route = Route { paths: vec![Path { hops, blinded_tail: None }], route_params: RouteParameters::from_payment_params_and_value(params, amt) };
+				let id = PaymentId(hash.0);
+				net.nodes[0].node.send_payment_with_route(route, hash, RecipientOnionFields::secret_only(secret, amt), id).map_err(|e| format!("send failed: {:?}", e))?;
+				net.pump(0);
+				net.pays.push(PendingPay { hash, preimage, secret, amt, id, from: 0, to: 2 });
+				icpt_settle(&mut net, t);
+				let held = icpt_held(&net, t);
+				let new: Vec<_> = held.iter().filter(|h| !order.contains(&h.0)).collect();
+				if new.len() != 1 { return Err(format!("op {}: the HTLC was not intercepted ({} new entries)", n_op, new.len())); }
+				let h = new[0];
+				if h.1 != hex48(&hex(&hash.0)) { return Err("intercepted entry has another payment hash".into()); }
+				order.push(h.0.clone());
+				pay_of.insert(h.0.clone(), net.pays.len() - 1);
+				if let Some(e) = icpt_events(&net, t).into_iter().find(|e| e.0 == h.0) {
+					// what the payer put into the onion: forward `amt` to the intercept SCID, `amt + fee` arrives, expiry = tip + 1 + final delta
+					let want = format!("{}/{}/{}/{}/{}/", hex48(&h.0), scid, hex48(&hex(&hash.0)), amt + fee0, amt);
+					if !e.1.starts_with(&want) { rec.oracle_fail(format!("{}: op {}: Event::HTLCIntercepted does not describe the intercepted HTLC: event {} but the payer sent id/scid/hash/in/out = {} (expiry not compared)", tag, n_op, e.1, want)); }
+					first_ev.insert(h.0.clone(), e.1);
+				}
+				else { rec.oracle_fail(format!("{}: after op {} node {} holds intercepted HTLC {} but no Event::HTLCIntercepted was queued for it", tag, n_op, t, &h.0[..12])); }
+				toks.push(format!("i{}:{}:{}:{}:{}:{}", hex48(&h.0), h.1, h.2, h.3, h.4, scid));
+			},
+			IcOp::H(k) => {
+				let cnt = Cell::new(0usize);
+				let acc: RefCell<Vec<String>> = RefCell::new(vec![]);
+				let handler = |ev: Event| -> Result<(), ReplayEvent> { match ev {
+					Event::HTLCIntercepted { intercept_id, .. } => if cnt.get() < k { cnt.set(cnt.get() + 1); acc.borrow_mut().push(hex(&intercept_id.0)); Ok(()) } else { Err(ReplayEvent()) },
+					_ => Ok(()) } };
+				net.nodes[t].node.process_pending_events(&handler);
+				net.pump(t);
+				told.extend(acc.into_inner());
+				toks.push(format!("h{}", k));
+			},
+			IcOp::R(j, fwd) => {
+				// the j-th HTLC (interception order) among those the running application was told about and that are still held
+				let held: Vec<String> = icpt_held(&net, t).into_iter().map(|x| x.0).collect();
+				let cands: Vec<String> = order.iter().filter(|id| told.contains(id) && held.contains(id)).cloned().collect();
+				if cands.is_empty() { continue; }
+				let idh = cands[j % cands.len()].clone();
+				let mut idb = [0u8; 32]; idb.copy_from_slice(&unhex(&idh));
+				let p = pay_of[&idh];
+				let r = if fwd { net.nodes[t].node.forward_intercepted_htlc(InterceptId(idb), &out_chan, net.ids[2], net.pays[p].amt) } else { failed_by_app.insert(p); net.nodes[t].node.fail_intercepted_htlc(InterceptId(idb)) };
+				if let Err(e) = r { rec.oracle_fail(format!("{}: op {}: the application was told about intercepted HTLC {} and it is still held, but {} fails: {:?}", tag, n_op, &idh[..12], if fwd { "forward_intercepted_htlc" } else { "fail_intercepted_htlc" }, e)); }
+				net.pump(t);
+				icpt_settle(&mut net, t);
+				toks.push(format!("r{}", hex48(&idh)));
+			},
+			IcOp::P => { disk = Some(net.nodes[t].node.encode()); toks.push("p".into()); },
+			IcOp::C => {
+				let mgr = match &disk { Some(m) => m.clone(), None => return Err("crash before the first write".into()) };
+				let (_, mons) = net.snapshot(t);
+				let held_disk_q: usize = 0; let _ = held_disk_q;
+				net.restart_from(t, &mgr, &mons).map_err(|e| format!("restart failed: {}", e))?;
+				told.clear(); crashed = true;
+				toks.push("c".into());
+				// ---- oracle: every held HTLC has its event pending again, equal to the one first delivered --------------------------
+				let evs = icpt_events(&net, t);
+				let held = icpt_held(&net, t);
+				let mut regen = 0;
+				for h in &held {
+					let mine: Vec<&(String, String)> = evs.iter().filter(|e| e.0 == h.0).collect();
+					if mine.is_empty() {
+						rec.oracle_fail(format!("{}: after the restart (op {}) the node holds {} intercepted HTLC(s) in pending_intercepted_htlcs but NO Event::HTLCIntercepted is pending for intercept id {} (payment {}): the application never learns this id again and can neither forward nor fail the HTLC; pending HTLCIntercepted events: {} of {} held",
+							tag, n_op, held.len(), &h.0[..12], pay_of.get(&h.0).map(|p| hex(&net.pays[*p].hash.0[..4])).unwrap_or_default(), evs.len(), held.len()));
+					} else if let Some(orig) = first_ev.get(&h.0) {
+						if mine.iter().any(|e| &e.1 != orig) { rec.oracle_fail(format!("{}: after the restart (op {}) the HTLCIntercepted event of intercept id {} differs from the one delivered when the HTLC was intercepted: {} vs {} (id/scid/hash/in/out/expiry)", tag, n_op, &h.0[..12], mine[0].1, orig)); }
+					}
+					regen += 1;
+				}
+				*regen_total += regen;
+				rec.case(&format!("icpt {}", toks.join(" ")), &show(&net, &told), &format!("icpt:held{}:ev{}", held.len().min(3), evs.len().min(4)), !held.is_empty());
+				net.reconnect(t, 0); net.reconnect(t, 2);
+				icpt_settle(&mut net, t);
+			},
+		}
+	}
+	if ops.last() != Some(&IcOp::C) { rec.case(&format!("icpt {}", toks.join(" ")), &show(&net, &told), "icpt:live", true); }
+	// ---- end to end: what is DELIVERED after the last restart names every held HTLC; everything the application is told about completes ----
+	if crashed {
+		let acc: RefCell<Vec<String>> = RefCell::new(vec![]);
+		let handler = |ev: Event| -> Result<(), ReplayEvent> { if let Event::HTLCIntercepted { intercept_id, .. } = ev { acc.borrow_mut().push(hex(&intercept_id.0)); } Ok(()) };
+		net.nodes[t].node.process_pending_events(&handler);
+		net.pump(t);
+		told.extend(acc.into_inner());
+		let held = icpt_held(&net, t);
+		for h in &held {
+			if !told.contains(&h.0) {
+				rec.oracle_fail(format!("{}: Event::HTLCIntercepted for intercept id {} (payment {}) is NOT delivered after the last restart although the node still holds the HTLC ({} held, events delivered since the restart name {:?}): the HTLC can only time out",
+					tag, &h.0[..12], pay_of.get(&h.0).map(|p| hex(&net.pays[*p].hash.0[..4])).unwrap_or_default(), held.len(), told.iter().map(|x| x[..12].to_string()).collect::<Vec<_>>()));
+			}
+		}
+		for h in &held {
+			if !told.contains(&h.0) { continue; }
+			let mut idb = [0u8; 32]; idb.copy_from_slice(&unhex(&h.0));
+			let p = pay_of[&h.0];
+			if let Err(e) = net.nodes[t].node.forward_intercepted_htlc(InterceptId(idb), &out_chan, net.ids[2], net.pays[p].amt) { rec.oracle_fail(format!("{}: forward_intercepted_htlc of the re-delivered intercept id {} fails after the restart: {:?}", tag, &h.0[..12], e)); }
+		}
+		net.pump(t);
+		net.settle(16);
+		for p in 0..net.pays.len() { if net.claimable[2].iter().any(|c| c.0 == net.pays[p].hash) { net.claim(p); } }
+		net.settle(16);
+		for p in 0..net.pays.len() {
+			let id = net.pays[p].id;
+			let sent = net.events[0].iter().any(|e| matches!(e, Event::PaymentSent { payment_id: Some(pid), .. } if *pid == id));
+			let failed = net.events[0].iter().any(|e| matches!(e, Event::PaymentFailed { payment_id, .. } if *payment_id == id));
+			let want_failed = failed_by_app.contains(&p);
+			if want_failed && sent || !want_failed && failed || !(sent || failed) {
+				rec.oracle_fail(format!("{}: payment {} ({}) ends with PaymentSent={} PaymentFailed={} at the payer after the intercepting node restarted, the application handled every event it was given and the recipient claimed what arrived",
+					tag, hex(&net.pays[p].hash.0[..4]), if want_failed { "failed by the application with fail_intercepted_htlc" } else { "forwarded by the application with forward_intercepted_htlc" }, sent, failed));
+			}
+		}
+	}
+	std::mem::forget(net);
+	Ok(())
+}
+
+fn icpt_family(rec: &mut Rec, args: &Args) -> (u64, u64, u64) {
+	use IcOp::*;
+	let mut worlds: Vec<Vec<IcOp>> = vec![
+		vec![I, I, H(1), P, C],                 // first event handled, second replayed, manager written afterwards (seeded C10-r5)
+		vec![I, I, P, H(1), C],                 // manager written before the handling: both events are in the written queue
+		vec![I, I, H(2), P, C],                 // both handled: both regenerated
+		vec![I, I, H(0), P, C],                 // none handled
+		vec![I, H(1), I, P, C],                 // first handled before the second arrives
+		vec![I, I, I, H(2), P, C],
+		vec![I, I, I, H(1), P, H(1), C],
+		vec![I, I, H(2), R(0, true), P, C],     // one forwarded before the write: one held, no event in the written queue
+		vec![I, I, H(2), R(1, false), P, H(0), C],
+		vec![I, I, H(1), R(0, false), P, C],    // the handled one failed back: only the queued one is held
+		vec![I, I, H(1), P, C, C],              // crash twice
+		vec![I, I, H(1), P, C, P, C],           // written again right after the restart
+		vec![I, I, H(1), P, C, I, H(9), P, C],  // second round: everything handled, a third HTLC, crash: three regenerated
+		vec![I, P, C, I, H(0), P, C],
+		vec![I, I, H(1), P],                    // no crash: the live queue
+	];
+	let mut rng = Rng::new(args.seed ^ 0x1C97);
+	let n_random = if args.thorough { 240 } else { 40 };
+	for _ in 0..n_random {
+		let mut w = vec![]; let mut n_i = 0; let mut crashed = false;
+		let rounds = 1 + rng.below(2);
+		for _ in 0..rounds {
+			let n_pre = 2 + rng.below(4);
+			for _ in 0..n_pre {
+				match rng.below(6) {
+					0 | 1 | 2 if n_i < 4 => { w.push(I); n_i += 1; },
+					3 => w.push(H(if crashed { if rng.chance(1, 2) { 0 } else { 9 } } else { rng.below(3) as usize })),
+					4 => w.push(R(rng.below(3) as usize, rng.chance(1, 2))),
+					_ => if n_i < 4 { w.push(I); n_i += 1; },
+				}
+			}
+			if n_i == 0 { w.push(I); n_i += 1; }
+			w.push(P);
+			if rng.chance(1, 2) { w.push(H(if crashed { if rng.chance(1, 2) { 0 } else { 9 } } else { rng.below(3) as usize })); }
+			w.push(C); crashed = true;
+			if rng.chance(1, 4) { w.push(C); }
+		}
+		worlds.push(w);
+	}
+	let only = std::env::var("VERIF_C10_ICPT").ok();
+	let (mut n, mut errs, mut regen) = (0u64, 0u64, 0u64);
+	for w in worlds {
+		let key = icpt_key(&w);
+		if let Some(o) = &only { if o != "all" && *o != key { continue; } }
+		n += 1;
+		let seed = rng.next();
+		match guarded(AssertUnwindSafe(|| run_icpt_world(&w, rec, seed, &mut regen))) {
+			Ok(Ok(())) => {},
+			Ok(Err(e)) => { errs += 1; rec.discarded += 1; if std::env::var("VERIF_TRACE").is_ok() { eprintln!("interception world {} could not be set up: {}", key, e); } },
+			Err(p) => rec.oracle_fail(format!("interception world [VERIF_C10_ICPT={}] (seed {}): panic: {}", key, seed, p.chars().take(300).collect::<String>())),
+		}
+	}
+	(n, errs, regen)
 }
 
 // =====================================================================================================================
